@@ -115,7 +115,8 @@ def run_variant(scn, base, variant, listing):
     os.mkdir(root)
     world.materialise(scn["tree"], root)
     outcomes = []
-    spelling = {"trailing_slash": lambda p: p + os.sep, "relative": lambda p: os.path.relpath(p, pdir), "dot_slash": lambda p: "." + os.sep + os.path.relpath(p, pdir) + os.sep}
+    spelling = {"trailing_slash": lambda p: p + os.sep, "relative": lambda p: os.path.relpath(p, pdir), "dot_slash": lambda p: "." + os.sep + os.path.relpath(p, pdir) + os.sep,
+                "dot_end": lambda p: p + os.sep + ".", "cwd_dot": lambda p: "."}
     for st in scn["steps"]:
         equalise(root)
         r = os.path.join(root, st.get("root", "")) if st.get("root") else root
@@ -127,15 +128,15 @@ def run_variant(scn, base, variant, listing):
             argv += ["-i", p]
         with freeze_time(FROZEN):
             with Listing(*listing):
-                outcomes.append(impl.run_cli("create", argv, cwd=pdir if variant in ("relative", "dot_slash") else None))
+                outcomes.append(impl.run_cli("create", argv, cwd=pdir if variant in ("relative", "dot_slash") else r if variant == "cwd_dot" else None))
     equalise(root)
     return root, [o for o, _ in outcomes]
 
 
-VARIANTS = ["under_ascmhl", "under_ascmhl_deep", "under_user_pattern", "under_meta_chars", "trailing_slash", "relative", "dot_slash"]
+VARIANTS = ["under_ascmhl", "under_ascmhl_deep", "under_user_pattern", "under_meta_chars", "trailing_slash", "relative", "dot_slash", "dot_end", "cwd_dot"]
 LISTINGS = [("reversed", 0), ("shuffled", 1), ("shuffled", 2)]
 RULE = ("the same tree (equalised mtimes, frozen clock) with nested child histories sealed by the same command sequence at a reference location and (a) under a parent folder "
-        "named ascmhl / ascmhl/nested / matching the user's own -i pattern, with a trailing slash, by relative path, as ./r/ ; (b) with os.listdir / os.scandir returning "
+        "named ascmhl / ascmhl/nested / matching the user's own -i pattern, with a trailing slash, by relative path, as ./r/, as r/. and as . from inside the folder ; (b) with os.listdir / os.scandir returning "
         "entries reversed and shuffled; every file of every ascmhl folder must be byte-identical to the reference run; a copy of the sealed tree verifies with exit 0 at "
         "another location (verify and diff). The reference run is also compared step by step with the extracted model. Non-trivial: the tree has nested histories or "
         "more than one entry per folder.")
